@@ -7,7 +7,7 @@ SRC="$1"; ID="$2"
 export GOFLAGS=-mod=mod GOPROXY=off GOSUMDB=off GOTOOLCHAIN=local
 WT=/tmp/sv_$ID
 git -C /repo worktree remove --force $WT >/dev/null 2>&1
-git -C /repo worktree add -q --detach $WT HEAD || exit 2
+git -C /repo worktree add -q --detach $WT ${SEED_BASE:-HEAD} || exit 2
 trap 'git -C /repo worktree remove --force $WT >/dev/null 2>&1' EXIT
 cd $WT
 cp "$SRC/demo_test.go" ./zz_seed_demo_test.go
